@@ -390,4 +390,33 @@ def representableL (p : PCfg) (f : Fmt) (inCdata : Bool) : List Node → Bool
   | n :: ns => representable p f inCdata n && representableL p f inCdata ns
 end
 
+/-! ### `DoctypeStable`: the forests on which a second round trip changes nothing -/
+
+/-- after this node, is the pending data of the second pass a doctype's newline? -/
+def nextAfter (after : Bool) : Node → Bool
+  | .tag _ _ => false
+  | .str c s =>
+    match strKind c s with
+    | .text _ => after
+    | .special _ _ nl => nl
+
+/-- a doctype must not stand in a preserve-whitespace context, and the text that follows one must be whitespace -/
+def headOK (p : PCfg) (ctx : Ctx) (after : Bool) : Node → Bool
+  | .tag _ _ => true
+  | .str c s =>
+    match strKind c s with
+    | .text t => !after || t.all (fun c => p.asciiSpaces.contains c)
+    | .special _ _ nl => !nl || !ctx.pres
+
+mutual
+/-- `DoctypeStable`: below this node no doctype is followed by visible text or stands inside `<pre>`/`<textarea>` -/
+def dstableN (p : PCfg) (ctx : Ctx) : Node → Bool
+  | .tag i ks => dstableL p (pushCtx p ctx (fullName i)) false ks
+  | .str _ _ => true
+def dstableL (p : PCfg) (ctx : Ctx) : Bool → List Node → Bool
+  | _, [] => true
+  | after, n :: ns => dstableN p ctx n && headOK p ctx after n && dstableL p ctx (nextAfter after n) ns
+end
+
+
 end BS.Render
